@@ -29,6 +29,7 @@ import (
 	"github.com/cosmos/cosmos-sdk/x/authz"
 	banktypes "github.com/cosmos/cosmos-sdk/x/bank/types"
 	govv1 "github.com/cosmos/cosmos-sdk/x/gov/types/v1"
+	slashingtypes "github.com/cosmos/cosmos-sdk/x/slashing/types"
 	stakingtypes "github.com/cosmos/cosmos-sdk/x/staking/types"
 	cmttypes "github.com/cometbft/cometbft/types"
 )
@@ -330,7 +331,7 @@ func (a *Accounts) ToMsg(signer int, m *MsgSpec) (sdk.Msg, error) {
 			MinSelfDelegation: math.OneInt(), ValidatorAddress: sdk.ValAddress(a.Addr(who)).String(), Pubkey: pkAny, Value: coin(m.N),
 		}, nil
 	case "unjail_validator":
-		return nil, fmt.Errorf("unsupported")
+		return &slashingtypes.MsgUnjail{ValidatorAddr: sdk.ValAddress(a.Addr(who)).String()}, nil
 	case "gov_submit":
 		var anys []*codectypes.Any
 		gov := -1000
